@@ -652,7 +652,7 @@ int cif_validate_cif11_characters(UChar *s, UChar **disallowed) {
     assert(is_allowed[UCHAR_SP]);
 
     while (*s) {
-        if ((*s >= sizeof(is_allowed)) || !is_allowed[*s]) {
+        if ((*s >= (sizeof(is_allowed) / sizeof(is_allowed[0]))) || !is_allowed[*s]) {
             if (disallowed) {
                 *disallowed = s;
             }
